@@ -201,6 +201,11 @@ def run(res, tier):
         res.violation("C19.1.config-compiles", f, "<witness %s>" % nm, key, line, "configuration %s does not compile (%s): %s" % (nm, comp, msg[:240]))
     res.floor("C19.1", len(runs), 20, "witness compilations")
     selector_witness(res)      # one compilation; in both tiers
+    res.rule("C19.8 the automatic block size (the documented default of every configuration) is at least 1 (rule C08.2): a size of 0 builds a tree without groups")
+    import c08 as _c08
+    _sub8 = tbf.Result("C08")
+    _c08.block_size_positive(tbf.scan("core"), _sub8)
+    tbf.reexport(res, _sub8, ("C08.2",), "C19.8.default-block-size", min_instances=1)
     res.rule("C19.7 the positions container needs only std::size and two subscripts (README): compile witness with a built-in array and a std::deque")
     positions_witness(res, tier)
     ordering_agreement(res)
